@@ -225,6 +225,18 @@ def compare_flush(ctx, m, net):
         return []
     stock = pre["stock"]
     pv = [pre["pv"].get(p.id, 0.0) for p in net["pars"]]
+    # the proportions the flush is about to use must be defined (the start-up sequence evaluates parameters BEFORE flushing):
+    # a junction holding people whose out-link proportion is NaN cannot be redistributed by the rule
+    for c, k in enumerate(net["kinds"]):
+        if k in "jr" and stock[c][0] > 0:
+            for l in range(len(net["links"])):
+                if net["src"][l] == c and net["par"][l] >= 0 and not math.isfinite(pv[net["par"][l]]):
+                    post = genfw.snapshot_stock(m, 0)
+                    tot_pre = sum(v for rows in stock for v in rows)
+                    tot_post = sum(v for rows in post for v in rows)
+                    viol = ("C04", {"oracle": "flush-undefined-proportion"},
+                            f"initial flush of junction {net['comps'][c].id} holding {stock[c][0]!r} people used an undefined (NaN) proportion for link {net['links'][l].id}; total before {tot_pre!r}, after {tot_post!r}")
+                    return [{"stage": "flush", "t": 0, "what": viol[2], "violation": viol}]
     if any(not math.isfinite(v) for v in pv) or any(not math.isfinite(v) for rows in stock for v in rows):
         return []
     if not any(stock[c][0] > 0 for c in range(len(stock)) if net["kinds"][c] in "jr"):
@@ -536,6 +548,7 @@ def _run_stream(ctx, prop, n_models, regimes=("calibrated", "extreme", "boundary
         if illposed:
             ctx.count("domain.illposed_junction")
         mine = [b for b in brs if prop in STAGE_PROPS.get(b["stage"], set())]
+        ors = ors + [b["violation"] for b in brs if b.get("violation")]
         my_or = [o for o in ors if o[0] == prop]
         for (p_, okey, what) in my_or:
             if illposed and okey.get("oracle") in ("finite",):
